@@ -25,6 +25,11 @@ CONSTANTS Pilots,            \* set of pilot names (strings)
           Unknown,           \* origin markers naming no connected side
           NMsgs,             \* number of messages published
           MaxHops,           \* 2: local -> proxy -> local
+          EagerApp,          \* TRUE: deliveries to ordinary subscribers are counted when
+                             \* the message is published on their pubsub (queues AA / PA
+                             \* stay empty).  DeliverApp only moves a queue head into the
+                             \* ghost got and commutes with every other action, so this is
+                             \* a sound reduction of the interleavings; FALSE = as the rig.
           FwdChoice,         \* flag values Publish chooses from (FwdVals; simulation
                              \* runs narrow it to get more forwarded messages)
           DevKeepFwd,        \* L2P does not clear the fwd flag
@@ -57,10 +62,12 @@ Init ==
 Publish(s, o, f) ==
   /\ next <= NMsgs
   /\ LET m == [id |-> next, origin |-> o, fwd |-> f, hops |-> 0] IN
-     qloc' = [qloc EXCEPT ![s]["AA"] = Append(@, m), ![s]["AL"] = Append(@, m)]
+     qloc' = IF EagerApp THEN [qloc EXCEPT ![s]["AL"] = Append(@, m)]
+                         ELSE [qloc EXCEPT ![s]["AA"] = Append(@, m), ![s]["AL"] = Append(@, m)]
+  /\ got'  = IF EagerApp THEN [got EXCEPT ![s][next] = @ + 1] ELSE got
   /\ pub'  = [pub EXCEPT ![next] = [side |-> s, origin |-> o, fwd |-> f]]
   /\ next' = next + 1
-  /\ UNCHANGED <<qpx, got>>
+  /\ UNCHANGED qpx
 
 (* ---- delivery to the ordinary subscriber of s, from app(s) or P2L(s) ---- *)
 DeliverApp(s, src) ==
@@ -83,9 +90,12 @@ DeliverL2P(s, src) ==
 DeliverP2L(s, t) ==
   /\ qpx[s][t] # <<>>
   /\ LET outs == P2LOut(t, Head(qpx[s][t]), DevP2LNoSelfDrop) IN
-     qloc' = [qloc EXCEPT ![t]["PA"] = @ \o outs, ![t]["PL"] = @ \o outs]
+     /\ qloc' = IF EagerApp THEN [qloc EXCEPT ![t]["PL"] = @ \o outs]
+                            ELSE [qloc EXCEPT ![t]["PA"] = @ \o outs, ![t]["PL"] = @ \o outs]
+     /\ got'  = IF EagerApp /\ outs # <<>>
+                THEN [got EXCEPT ![t][Head(qpx[s][t]).id] = @ + 1] ELSE got
   /\ qpx' = [qpx EXCEPT ![s][t] = Tail(@)]
-  /\ UNCHANGED <<next, pub, got>>
+  /\ UNCHANGED <<next, pub>>
 
 Deliver ==
   \/ \E s \in Sides, src \in {"app", "p2l"} : DeliverApp(s, src) \/ DeliverL2P(s, src)
